@@ -188,7 +188,9 @@ def rule_R13_3(ctx):
             r.fail("%s | property binders=%d" % (f.path, len(binders)),
                    "expected the shorthand and the `\"k\": pattern` arms to bind one property each")
         # rest object is built from iterating that set
-        iters = [c for c in f.calls() if (c.res or "").endswith("HashSet::<T, S, A>::iter") or
+        import inline
+        fv = inline.view(prog, f)     # the copy loop may sit in a private helper
+        iters = [c for c in fv.calls() if (c.res or "").endswith("HashSet::<T, S, A>::iter") or
                  ((c.res or "").split("::")[-1] in ("iter", "into_iter", "drain") and c.argtys and HS in c.argtys[0])]
         r.inst("%s: rest built from %d iteration(s) of the remaining set" % (f.path, len(iters)))
         if iters:
